@@ -41,6 +41,9 @@ func run(r *core.Run) {
 	if schedShard && (only == "" || only == "repl") {
 		replInterrupts(r)
 	}
+	if schedShard && (only == "" || only == "replhist") {
+		replHistories(r)
+	}
 	if seqShard && (only == "" || only == "seq") {
 		seqBFS(r)
 	}
@@ -76,11 +79,12 @@ func replay(r *core.Run, raw json.RawMessage) bool {
 		sub := core.NewScratchRun(r)
 		judgeSchedule(sub, c.Scenario, s, o, allowedOutcomes(c.Scenario))
 		return len(sub.Violations()) > 0
-	case "repl":
+	case "repl", "repl-history":
 		var c ReplCase
 		_ = json.Unmarshal(raw, &c)
 		o := runRepl(c)
 		bad := judgeRepl(c, o)
+		fmt.Printf("  earlier lines %q\n", c.Prefix)
 		fmt.Printf("  REPL depth %d line %q interrupt at write %d (settle %d ms): %+v\n  verdict: %q\n", c.Depth, c.Prog, c.FireAt, c.WaitMs, o, bad)
 		return bad != ""
 	default:
